@@ -41,6 +41,7 @@ def norm_crlf(s):
 
 class Prop(BaseProp):
     ID = "C04"
+    ANCHORS = ['cminx.aggregator:DocumentationAggregator.clean_doc_lines', 'cminx.aggregator:DocumentationAggregator.enterCommand_invocation']
     LEVEL = "exploration"
     RULE = ("one abstract module rendered under k layouts (inter-token spaces/tabs/newlines, 20 line-comment and 13 "
             "bracket-comment texts of level 0-3 at every gap incl. between doccomment and command and inside argument "
